@@ -28,7 +28,13 @@ StrPaths == UNION {{<<x>>, <<x, y>>, <<x, y, z>>} : x \in SegAlphabet, y \in Seg
 Clean(p) == \A i \in DOMAIN p : p[i] # <<>> /\ \A j \in DOMAIN p[i] : p[i][j] # 47
 
 \* ---- resolution probes: every existing path (depth <= 3) extended by nothing or by one odd segment
-OddSegs == { <<122, 122>>, <<57>>, <<120>>, <<97>>, <<48>> }
+\* ... among them list indices that do not exist: 10, 2^64, 2^64 + 1 (congruent to 1 modulo 2^64), 2^63, a 30-digit number
+Digits(str) == [i \in DOMAIN str |-> str[i] + 48]
+OddSegs == { <<122, 122>>, <<57>>, <<120>>, <<97>>, <<48>>, <<49, 48>>,
+             Digits(<<1, 8, 4, 4, 6, 7, 4, 4, 0, 7, 3, 7, 0, 9, 5, 5, 1, 6, 1, 6>>),
+             Digits(<<1, 8, 4, 4, 6, 7, 4, 4, 0, 7, 3, 7, 0, 9, 5, 5, 1, 6, 1, 7>>),
+             Digits(<<9, 2, 2, 3, 3, 7, 2, 0, 3, 6, 8, 5, 4, 7, 7, 5, 8, 0, 8>>),
+             Digits(<<1, 0, 0, 0, 0, 0, 0, 0, 0, 0, 0, 0, 0, 0, 0, 0, 0, 0, 0, 0, 0, 0, 0, 0, 0, 0, 0, 0, 0, 1>>) }
 GetProbes ==
   UNION {{[gi |-> gi, path |-> p \o ext] : p \in PathsOf(Graphs[gi], Graphs[gi][1], 3),
                                              ext \in {<<>>} \cup {<<o>> : o \in OddSegs}}
